@@ -66,7 +66,7 @@ fn start_envs() -> Vec<PlainEnv> {
         mk(&[]),
         mk(&[("X", "")]),
         mk(&[("X", "o")]),
-        mk(&[("X", "o"), ("Y", "p"), ("Z", "z")]),
+        mk(&[("X", "o"), ("PATH", "p"), ("Z", "z")]),
     ]
 }
 
@@ -186,7 +186,8 @@ impl Model for M {
     fn actions(&self, _s: &St, out: &mut Vec<Ins>) {
         for scope in scopes() {
             for beh in BEHS {
-                for name in ["X", "Y"] {
+                // the second name is one of the conventional path-list variables: the rules do not depend on the name
+                for name in ["X", "PATH"] {
                     for value in self.values {
                         let value: &'static [u8] = value;
                         out.push(Ins { scope: scope.clone(), beh, name, value });
@@ -248,7 +249,7 @@ pub fn run(args: &Args) {
     // non-trivial = states with at least one entry (every one of them has >= 1 query whose result differs from the start env or tests non-interference)
     rep.cov("distinct_nontrivial", r.states + r2.states + r3s - 2);
     rep.cov("rule", "states = distinct abstract maps (scope,behaviour,name)->value reached by real LayerEnv::insert sequences (BFS from empty to the depth bound; plus all 3x(2^5x2^5-1) behaviour stacks on one name and one further insert); each state is evaluated for 5 query scopes x 4 starting environments against the reference rules; non-trivial = non-empty environment");
-    rep.cov("bound", json!({"insert_depth": depth, "alphabet": "4 scopes x 5 behaviours x names {X,Y} x values {'',x,<0xff>y} = 120 inserts", "stacks": "3 x 1023 init states, depth 1", "query": "5 scopes (incl. unknown process q) x 4 start envs (unset, empty, set, set+others)"}));
+    rep.cov("bound", json!({"insert_depth": depth, "alphabet": "4 scopes x 5 behaviours x names {X,PATH} x values {'',x,<0xff>y} = 120 inserts", "stacks": "3 x 1023 init states, depth 1", "query": "5 scopes (incl. unknown process q) x 4 start envs (unset, empty, set, set+others)"}));
     let capped = r.cap_hit.clone().or(r2.cap_hit.clone()).or(r3.as_ref().and_then(|x| x.cap_hit.clone()));
     rep.cov("exhaustive", capped.is_none());
     if let Some(c) = &capped {
